@@ -1,0 +1,14 @@
+#include <occa/internal/utils/verif.hpp>
+
+#ifdef LIBOCCA_OCCA_VERIF
+namespace occa {
+  namespace verif {
+    long created[kKindCount]   = {0};
+    long destroyed[kKindCount] = {0};
+
+    void count(long *counters, int kind) {
+      __atomic_fetch_add(counters + kind, 1L, __ATOMIC_RELAXED);
+    }
+  }
+}
+#endif
